@@ -226,10 +226,11 @@ def _us_of_duration(d):
     if d.years or d.months:
         raise ValueError("YearsMonthsInTimeDiff")
     tot = round(d.total_seconds() * US)
-    if d.invert and comp > 0:
-        comp = -comp                                   # AbsoluteDuration keeps positive components + invert flag
-    if abs(comp) != abs(tot):
-        raise ValueError("DurationInconsistent")
+    if d.invert and comp > 0 and type(d).__name__ == "AbsoluteDuration":
+        comp = -comp                                   # AbsoluteDuration keeps positive components + invert flag (a plain Duration
+                                                       # carries the sign on its components)
+    if abs(comp) != abs(tot) or (type(d).__name__ != "AbsoluteDuration" and comp != tot):
+        raise ValueError("DurationInconsistent")       # a plain Duration: components (sign included) and total_seconds() are one value
     return tot
 
 
